@@ -5,7 +5,7 @@
    implementation's error text for every rejected block; the boundary probes of the correspondence at
    bound-1 / bound / bound+1 compare verdict and code. *)
 From Coq Require Import ZArith List Bool.
-From Sia Require Import Prim.Result Prim.Tok Policy.Model Policy.Proofs Ledger.Types Ledger.Mid Ledger.Validate Ledger.Apply Ledger.Proofs Ledger.Auth Ledger.Exact2 Ledger.Exact1.
+From Sia Require Import Prim.Result Prim.Tok Policy.Model Policy.Proofs Ledger.Types Ledger.Mid Ledger.Validate Ledger.Apply Ledger.Proofs Ledger.Auth Ledger.Exact2 Ledger.Exact1 Ledger.BlockExact.
 Import ListNotations.
 Open Scope Z_scope.
 
@@ -101,3 +101,14 @@ Theorem C08_gates_exact : forall H net vt pt se sd s m,
   (forall t ts, validate_txn1 H net vt se sd s m t ts = Err 20 <-> ln_v2_require net <= child s).
 Proof. exact gates_exact. Qed.
 Print Assumptions C08_gates_exact.
+
+(* the block level: application never reports an error (it can only panic) and the block-level checks use codes below 20,
+   so a block is rejected with the code of a transaction rule only because one of its transactions is rejected with that
+   code in the MidState the transactions before it produced; with the two theorems above, the height rule of that code is
+   violated by that transaction *)
+Theorem C08_block_error_from_transaction : forall H net vt pt se sd s b c,
+  validate_block H net vt pt se sd s b = Err c -> 20 <= c ->
+  (exists t ts m, In t (b_txns b) /\ validate_txn1 H net vt se sd s m t ts = Err c) \/
+  (exists t m, In t (b_v2txns b) /\ validate_txn2 H net vt pt se sd s m t = Err c).
+Proof. exact block_error_from_txn. Qed.
+Print Assumptions C08_block_error_from_transaction.
